@@ -283,6 +283,11 @@ kf("C06", "C06-switch-selector-unsupported", "switch case selectors that are con
 kf("C06", "C06-matrix-scalar-constructor", "matCxR<f32>(scalars...) and abstract-literal vector constructors stored directly produce malformed SPIR-V (a vector constructed from all matrix scalars; store type mismatch)", _c06["spirv-constructor"])
 kf("C06", "C06-extractBits-abstract-literal", "extractBits on a bare negative literal is folded without sign extension (the abstract literal is treated as unsigned)", _c06["fold-other"])
 kf("C06", "C06-compile-time-context-syntax", "`const_assert (a + b) == c;` (assertion starting with a parenthesis) and `array<u32, 1u | 2u>` (bit-or in a template argument) are rejected by the parser", _c06["syntax"])
+# C06, families F6c2 (chains through named constants) and F6c3 (structural folds): triaged by kf_c06x_triage.py
+# (findings = family x attribution x failure category; descriptions and keys in kf_c06x_keys.json)
+_c06x = json.load(open("kf_c06x_keys.json"))
+for _id in sorted(_c06x):
+    kf("C06", _id, _c06x[_id]["what"], _c06x[_id]["keys"])
 
 # ---------------------------------------------------------------- C14 (overrides); exact key lists in kf_c14_keys.json
 _c14 = json.load(open("kf_c14_keys.json"))
